@@ -211,7 +211,8 @@ def op_strategy(only_bounds=False, only_modes=False, only_hook=False):
         return st.one_of(sb, sb, sb, box)
     # (explicit weights, see hist.weighted)
     return hist.weighted((3, sb), (3, box), (9, motion), (5, hist.equally(*SCALAR_ALTS)),
-                         (4, hist.equally(*MISC_ALTS[:-1])), (2, MISC_ALTS[-1]), (1, excl))
+                         (4, hist.equally(*MISC_ALTS[:-1])), (2, MISC_ALTS[-1]), (1, excl),
+                         (1, st.just({"op": "other"})))
 
 
 BOUND_OF = {"set_feed_rate": "feed-rate", "set_tool_power": "tool-power",
@@ -246,6 +247,29 @@ def run_case(case, cl=None):
     g = s.g
     model = sh.InterlockModel()
     hook_state = {"on": None}
+    # the limits in force, as configured by THIS history (nothing else may change them)
+    MB = {n: None for n in SCALARS + ["axes"]}
+    if case.get("lenient"):
+        # a formatter that writes non-finite numbers instead of refusing them:
+        # with every property bounded, NaN/inf must be stopped by the limits
+        from gscrib.formatters import DefaultFormatter
+
+        class Lenient(DefaultFormatter):
+            def number(self, number):
+                if not math.isfinite(float(number)):
+                    return repr(float(number))
+                return super().number(number)
+        f = Lenient()
+        f.set_decimal_places(case.get("dp", 6))
+        f.set_line_endings("\\n")
+        g.set_formatter(f)
+        for n_, lo_, hi_ in (("axes", [-1e4] * 3, [1e4] * 3), ("feed-rate", 0.0, 1e6),
+                             ("tool-power", 0.0, 1e6), ("tool-number", 1, 10 ** 6),
+                             ("bed-temperature", -1e4, 1e4), ("hotend-temperature", -1e4, 1e4),
+                             ("chamber-temperature", -1e4, 1e4)):
+            g.set_bounds(n_, lo_, hi_)
+            MB[n_] = get_bounds(g, n_)
+        cl.add("formatter_that_writes_nan")
 
     def rewriting_hook(origin, target, params, state):
         """Returns a NEW parameter dict whose F/S come from the descriptor."""
@@ -275,6 +299,7 @@ def run_case(case, cl=None):
                 raise Violation(f"{where}: the rejected set_bounds() changed the limits of "
                                 f"{op['name']!r} from {before_b!r} to {after_b!r}")
             if not rejected:
+                MB[op["name"]] = after_b
                 want = ((tuple(float(c) for c in op["lo"]), tuple(float(c) for c in op["hi"]))
                         if op["name"] == "axes" else (op["lo"], op["hi"]))
                 if after_b is None or tuple(after_b[0] if op["name"] == "axes" else [after_b[0]]) != \
@@ -286,6 +311,7 @@ def run_case(case, cl=None):
         if name == "box_excluding_position":
             from vf.common import box_excluding_position
             box_excluding_position(g, op)
+            MB["axes"] = get_bounds(g, "axes")
             cl.add("box_set_with_position_outside")
             continue
         if name == "set_distance_mode":
@@ -319,7 +345,17 @@ def run_case(case, cl=None):
             model.commit({"op": "tool_off"})
             s.poll()
             continue
+        if name == "other":
+            from vf.statehist import other_builder_activity
+            other_builder_activity()     # ANOTHER builder gets its own (different) limits
+            cl.add("other_builder_with_other_limits")
+            continue
         B = {n: get_bounds(g, n) for n in SCALARS + ["axes"]}
+        for n_ in B:
+            if B[n_] != MB[n_]:
+                raise Violation(f"{where}: the limits of {n_!r} read {B[n_]!r} although this "
+                                f"history configured {MB[n_]!r} (no set_bounds on this builder "
+                                "in between)")
         pos0 = tuple(g.position)
         rel = g.distance_mode.is_relative
         if name == "shape":
@@ -560,6 +596,7 @@ def strategy(n):
     from hypothesis import strategies as st
     return st.fixed_dictionaries({
         "dp": st.sampled_from([3, 5, 6, 9]),
+        "lenient": st.sampled_from([False, False, False, True]),
         # limits first, then (half of the cases) one or two modal settings, so
         # that whole histories run under a non-default feed mode / unit system
         "ops": st.tuples(st.lists(op_strategy(only_bounds=True), max_size=6),
